@@ -1,7 +1,7 @@
 SPECIFICATION Spec
 CONSTANTS
   MaxToks = 4
-  MaxEvents = 9
+  MaxEvents = 10
   WithStartNode = TRUE
   WithError = TRUE
   ExportScripts = FALSE
